@@ -252,8 +252,11 @@ def do_call(c, O):
     if op == "units_simplify":
         return x.units.simplify()
     if op in ("gufunc", "gunary", "garrfn", "gmethod"):
-        generic_call(c, x, y)
+        scribble(generic_call(c, x, y))
         return None
+    if op == "aunit":
+        f = c["f"]
+        return x * y if f == "mul" else y * x if f == "rmul" else x / y if f == "div" else y / x
     if op == "gin":
         gin_call(c, x, y, o, out_given=True)
         return None
@@ -268,68 +271,87 @@ GOPER = {
 }
 
 
-def generic_call(c, x, y):
-    """generic copying families of Frame.tla (frame-only): perform the call, discard the result"""
+def scribble(res):
+    """overwrite every element of the object(s) a generic copying call returned: a result documented to be new shares
+    no memory with an input, so no live object may change"""
     np = _U["np"]
+    for r in res if isinstance(res, (tuple, list)) else (res,):
+        if isinstance(r, (tuple, list)):
+            scribble(r)
+            continue
+        if isinstance(r, np.ndarray) and r.size and r.dtype.kind in "biufc":
+            try:
+                b = np.asarray(r)
+                if b.flags.writeable:
+                    b[...] = 77
+            except Exception:  # noqa: BLE001 - a result that cannot be written cannot leak writes either
+                pass
+
+
+def generic_call(c, x, y):
+    """generic copying families of Frame.tla (frame-only): perform the call and return its result"""
+    np = _U["np"]
+    res = []
     op, f = c["op"], c["f"]
     if op == "gufunc":
         form = c["e"]
         uf = getattr(np, f)
         if form == "call":
-            uf(x, y)
+            res.append(uf(x, y))
         elif form == "op":
-            GOPER[f](x, y)
+            res.append(GOPER[f](x, y))
         elif form == "outer":
-            uf.outer(x, y)
+            res.append(uf.outer(x, y))
         elif form == "reduce":
-            uf.reduce(x)
+            res.append(uf.reduce(x))
         elif form == "accumulate":
-            uf.accumulate(x)
+            res.append(uf.accumulate(x))
         else:
             raise ValueError(form)
     elif op == "gunary":
-        getattr(np, f)(x)
+        res.append(getattr(np, f)(x))
     elif op == "gmethod":
         if f in ("sum", "mean", "std", "var", "min", "max", "prod", "cumsum", "cumprod", "argsort", "tolist", "flatten", "to_ndarray"):
-            getattr(x, f)()
+            res.append(getattr(x, f)())
         elif f == "round":
-            np.round(x, 1)
+            res.append(np.round(x, 1))
         elif f in ("sort", "ptp", "diff", "median"):
-            getattr(np, f)(x)
+            res.append(getattr(np, f)(x))
         elif f == "astype":
-            x.astype("float32")
+            res.append(x.astype("float32"))
         elif f == "unit_array":
-            x.unit_array
-            x.unit_quantity
+            res.append(x.unit_array)
+            res.append(x.unit_quantity)
         elif f == "str":
-            str(x)
-            repr(x)
+            res.append(str(x))
+            res.append(repr(x))
         else:
             raise ValueError(f)
     else:
         if f in ("concatenate", "stack", "vstack", "hstack"):
-            getattr(np, f)([x, y])
+            res.append(getattr(np, f)([x, y]))
         elif f == "where":
-            np.where(np.asarray(x) > 2, x, y)
+            res.append(np.where(np.asarray(x) > 2, x, y))
         elif f == "select":
-            np.select([np.asarray(x) > 2], [x], default=y)
+            res.append(np.select([np.asarray(x) > 2], [x], default=y))
         elif f == "clip":
-            np.clip(x, y, y)
+            res.append(np.clip(x, y, y))
         elif f in ("isclose", "allclose", "array_equal", "array_equiv", "intersect1d", "union1d", "setdiff1d", "isin", "searchsorted", "append", "dot", "inner", "outer", "kron"):
-            getattr(np, f)(x, y)
+            res.append(getattr(np, f)(x, y))
         elif f == "insert":
-            np.insert(x, 0, y)
+            res.append(np.insert(x, 0, y))
         elif f == "interp":
-            np.interp(y, x, x)
+            res.append(np.interp(y, x, x))
         elif f == "allclose_units":
-            _U["unyt"].array.allclose_units(x, y)
+            res.append(_U["unyt"].array.allclose_units(x, y))
         elif f == "linspace":
-            np.linspace(x, y, 3)
+            res.append(np.linspace(x, y, 3))
         elif f == "copyto_new":
-            np.copy(x)
-            np.array(x)
+            res.append(np.copy(x))
+            res.append(np.array(x))
         else:
             raise ValueError(f)
+    return res
 
 
 def gin_call(c, x, y, o, out_given):
